@@ -489,6 +489,15 @@ func (r *rewriter) stmt(s ast.Stmt) []ast.Stmt {
 		}
 		return []ast.Stmt{st}
 	case *ast.ReturnStmt:
+		if len(st.Results) == 1 {
+			// return <-ch  =>  yield; v := <-ch; yield; return v
+			if u, ok := st.Results[0].(*ast.UnaryExpr); ok && u.Op == token.ARROW && !containsRecv(u.X) {
+				r.funcLits(u.X)
+				v := r.fresh("rv")
+				r.count("R3_recv_return")
+				return []ast.Stmt{r.yieldStmt(), &ast.AssignStmt{Lhs: []ast.Expr{v}, Tok: token.DEFINE, Rhs: []ast.Expr{u}}, r.yieldStmt(), &ast.ReturnStmt{Results: []ast.Expr{v}}}
+			}
+		}
 		if containsRecv(st) {
 			r.unsupported(st, "channel receive in return statement")
 		}
